@@ -61,7 +61,8 @@ def instant_obs(p, y, mo, d, ms):
     p.set_variable('vn', (datetime.datetime(y, mo, d) - EPOCH).days)      # the whole part, as an integer on the left
     return {'kind': 'instant', 'in': {'y': y, 'mo': mo, 'd': d, 'ms': ms},
             'out': value_of(p, '{vd+0,DATEVALUE(vd),DATEVALUE(ve),DATEVALUE(vd)<DATEVALUE(ve),INT(DATEVALUE(vd)),'
-                               'vn<=vd,vn=vd,vn<vd,vn+1>vd,vd>=vn,vd<ve,ve>vd,N(vd)=DATEVALUE(vd),DAYS(ve,vd)>0}')}
+                               'vn<=vd,vn=vd,vn<vd,vn+1>vd,vd>=vn,vd<ve,ve>vd,N(vd)=DATEVALUE(vd),DAYS(ve,vd)>0,'
+                               'vd=vd,vd<=vd,vd>=vd,vd<>vd,vd<vd,vd=DATEVALUE(vd),DATEVALUE(vd)=vd,ve=ve,vd>DATEVALUE(vd),DATEVALUE(vd)>vd}')}
 
 
 def time_obs(p, h, m, s):
